@@ -615,10 +615,23 @@ package client
 // Withdrawal of a ledger channel: the adjudicator is asked to withdraw with exactly the current transaction (state and all
 // signatures), the channel's parameters, the own index and accounts, the caller's secondary flag, and the states of all sub-channels.
 //@ ghost func subStatesOf(c *Channel) channel.StateMap
-//@ func (*Channel).subChannelStateMap
+// The map is filled by the recursive walk over the whole tree below c (applyToSubChannelsRecursive: trusted recursion that applies
+// its argument to every channel below the receiver), with a closure that stores each visited channel's current state under that
+// channel's own ID. That the resulting map is then "the states of all sub-channels" (subStatesOf) rests on the trusted walk.
+// Frame of the walk: it writes nothing itself; what f writes is f's business. Its only caller outside trusted code is
+// subChannelStateMap, whose closure writes only the map that subChannelStateMap has just allocated (closure contract below), so
+// from the caller's view nothing that existed before changes; the content of that new map is not tracked through the walk.
+//@ func (*Channel).applyToSubChannelsRecursive
 //@   trusted
+//@   requires c != nil && f != nil
+//@ func (*Channel).subChannelStateMap$1
+//@   requires chanWF(c) && *states != nil
+//@   modifies (*states)[*]
+//@   ensures result == nil && has(*states, mach(c).params.id) && (*states)[mach(c).params.id] == chanState(c)
+//@ func (*Channel).subChannelStateMap
 //@   requires c != nil
-//@   ensures err == nil ==> states == subStatesOf(c)
+//@   callsite (*Channel).applyToSubChannelsRecursive : recv == outer_c
+//@   trustedensures err == nil ==> states == subStatesOf(c)
 //@ func (*Channel).IsLedgerChannel
 //@   requires c != nil
 //@   ensures result <==> c.parent == nil
